@@ -51,6 +51,31 @@ def io_events(p):
     return out
 
 
+def _flag_skips_flush(p, all_paths):
+    """why the mapping flush is skipped on path p: 'justified' (a monotone some-bit-was-stored flag is False and the path stores
+    nothing), 'infeasible' (the flag is False although this path's iteration stored a bit and set it), or None"""
+    flags = [c for c in p.conds if not c.truth and strip_epochs(c.atom)[0] == "hv"]
+    for c in flags:
+        name, lid = c.atom[1], c.atom[2].rstrip("+")
+        init = [e for e in p.events if e.kind == "loopinit" and e.name == name and e.lid == lid]
+        if not init or init[0].value not in (C(False), C(0)):
+            continue
+        inloop = [e.value for q in all_paths for e in q.events if e.kind == "bind" and e.name == name and e.loops and e.loops[-1] == lid]
+        if not inloop or any(v not in (C(True), C(1)) for v in inloop):
+            continue
+        # every iteration that stores also raises the flag
+        okset = True
+        for q in all_paths:
+            st = [i for i, e in enumerate(q.events) if e.kind == "setelem" and e.loops and e.loops[-1] == lid and strip_epochs(e.cont) == ("f", SELF, "_bloom", 0)]
+            if st and not any(e.kind == "bind" and e.name == name and e.loops and e.loops[-1] == lid for e in q.events[st[0]:]):
+                okset = False
+        if not okset:
+            continue
+        stored = any(e.kind == "setelem" and strip_epochs(e.cont) == ("f", SELF, "_bloom", 0) for e in p.events)
+        return "infeasible" if stored else "justified"
+    return None
+
+
 def check(prog, rep, tier):
     rep.extra["explanation"] = EXPL
     rep.rule("C11.write-order", "bits -> counter -> flush mapping -> seek -> write count -> flush file; close: sync, close mapping, close file", floor=3)
@@ -66,7 +91,8 @@ def check(prog, rep, tier):
     # ---------------------------------------------------------------- (a) write order
     add = prog.method(CTX, "add_alt")
     ok = True
-    for p in paths(prog, CTX, add, inline="deep"):
+    all_add_paths = paths(prog, CTX, add, inline="deep")
+    for p in all_add_paths:
         if p.exit[0] != "return":
             continue
         seq = [k for k, _ in io_events(p)]
@@ -74,6 +100,13 @@ def check(prog, rep, tier):
         want_tail = ["counter", "enter __update", "map.flush", "file.seek", "file.write", "file.flush"]
         tail = [k for k in seq if k != "map.store"]
         first_non_store = min([i for i, k in enumerate(seq) if k != "map.store"], default=len(seq))
+        if tail == [k for k in want_tail if k != "map.flush"]:
+            # the mapping is not flushed on this path: sound exactly when no bit was stored (nothing to flush).  A "some bit was
+            # stored" flag decides that: False at loop entry, only ever set to True, and set on every iteration that stores
+            if not stores:
+                continue  # nothing was stored on this path, so there is nothing to flush
+            if _flag_skips_flush(p, all_add_paths) == "infeasible":
+                continue
         if tail != want_tail or any(i > first_non_store for i in stores):
             rep.bad("C11.write-order", f"{CTX}.add_alt", f"order {seq}",
                     f"add performs {seq}; required: all bit stores, then the counter, then __update = flush mapping, seek, write count, flush file "
@@ -83,7 +116,30 @@ def check(prog, rep, tier):
     if ok:
         rep.ok("C11.write-order", f"{CTX}.add_alt: stores -> counter -> flush map -> seek -> write -> flush file")
     ups = [p for p in paths(prog, CTX, upd) if p.exit[0] == "return"]
-    oku = all([k for k, _ in io_events(p)] == ["map.flush", "file.seek", "file.write", "file.flush"] for p in ups) and ups
+    full = ["map.flush", "file.seek", "file.write", "file.flush"]
+
+    def upd_ok(p):
+        seq_ = [k for k, _ in io_events(p)]
+        if seq_ == full:
+            return True
+        # the mapping flush may be switched off by a parameter that defaults to "flush": callers that do not pass it get the full
+        # sequence; add_alt's use of it is judged above, nobody else may pass it (checked below)
+        if seq_ == full[1:]:
+            sw = [c for c in p.conds if not c.truth and strip_epochs(c.atom)[0] == "p" and strip_epochs(c.atom)[1] in upd.params
+                  and upd.defaults.get(strip_epochs(c.atom)[1]) is not None and getattr(upd.defaults[strip_epochs(c.atom)[1]], "value", None) is True]
+            return bool(sw)
+        return False
+    oku = all(upd_ok(p) for p in ups) and ups and any([k for k, _ in io_events(p)] == full for p in ups)
+    if oku:
+        for f_ in mro_methods(prog, CTX):
+            if f_.src_name in ("add_alt", "__update"):
+                continue
+            for p in paths(prog, CTX, f_):
+                for e in p.events:
+                    if e.kind == "call" and e.target is upd and (e.args or e.kwargs):
+                        vals = list(e.args) + list((e.kwargs or {}).values())
+                        if any(v != C(True) for v in vals):
+                            oku = False
     if oku:
         rep.ok("C11.write-order", f"{CTX}.__update: flush map, seek, write, flush file")
     else:
